@@ -180,7 +180,11 @@ CASES = [
          new="\n        # Validate the universe domain.\n        self._client._validate_universe_domain()\n"),
     # ---------------- C19
     dict(id="c19-segment-class", prop="C19", kind="mutant", file="schema/wrappers.py",
-         old='lambda m: "(?P<{name}>.+?)".format(name=m.groups()[0]),', new='lambda m: "(?P<{name}>[^/]+)".format(name=m.groups()[0]),'),
+         old='"(?P<{name}>.+?)".format(name=part) if i % 2 else re.escape(part)', new='"(?P<{name}>[^/]+)".format(name=part) if i % 2 else re.escape(part)'),
+    dict(id="c19-literal-unescaped", prop="C19", kind="mutant", file="schema/wrappers.py",
+         old='"(?P<{name}>.+?)".format(name=part) if i % 2 else re.escape(part)', new='"(?P<{name}>.+?)".format(name=part) if i % 2 else part'),
+    dict(id="c19-twin-parity-reversed", prop="C19", kind="twin", file="schema/wrappers.py",
+         old='"(?P<{name}>.+?)".format(name=part) if i % 2 else re.escape(part)', new='re.escape(part) if i % 2 == 0 else "(?P<{name}>.+?)".format(name=part)'),
     dict(id="c19-format-string", prop="C19", kind="mutant", file=S + "client.py.j2",
          old='return "{{ message.resource_path_formatted }}".format(', new='return "{{ message.resource_path }}".format('),
     # ---------------- C20
